@@ -5,7 +5,7 @@ import common
 import xh
 
 HARNESS = os.path.join(os.path.dirname(__file__), "harness", "h_c01.py")
-NCONSTRAINTS = 23
+NCONSTRAINTS = 25
 
 
 def keyfn(r):
